@@ -49,11 +49,15 @@ structure St where
   mi : MasterIndex := MasterIndex.new
   sets : List (String × ASet × Ref) := []
   labels : List String := []
-  verdict : Option Verdict := none
+  verdict : Option Verdict := none   -- first spec-false (ends the case)
+  differ : Option Verdict := none    -- first model/implementation difference (the case goes on: a spec-false later on wins)
   nobs : Nat := 0
   maxLen : Nat := 0
 
-def St.fail (s : St) (v : Verdict) : St := if s.verdict.isSome then s else { s with verdict := some v }
+def St.fail (s : St) (v : Verdict) : St :=
+  match v with
+  | .differ _ _ => if s.differ.isSome then s else { s with differ := some v }
+  | _ => if s.verdict.isSome then s else { s with verdict := some v }
 def St.label (s : St) (l : String) : St := if s.labels.contains l then s else { s with labels := l :: s.labels }
 def St.getIdx (s : St) (k : Nat) : Index := ((s.idxs.find? fun p => p.1 == k).map (·.2)).getD Index.new
 def St.setIdx (s : St) (k : Nat) (i : Index) : St := { s with idxs := (k, i) :: s.idxs.filter fun p => p.1 != k }
@@ -159,9 +163,10 @@ def stepRec (s : St) (r : Array String) : St :=
 
 def handle (c : Case) : Verdict :=
   let s := c.recs.foldl stepRec {}
-  match s.verdict with
-  | some v => v
-  | none =>
+  match s.verdict, s.differ with
+  | some v, _ => v
+  | none, some d => d
+  | none, none =>
     let sz := if s.maxLen == 0 then "members0" else if s.maxLen < 4 then "members<4" else "members>=4"
     .agree (s.nobs ≥ 2 && s.maxLen ≥ 1) (sz :: s.labels)
 
